@@ -17,7 +17,7 @@ RULE = (
     "Hypothesis draws an operator-tree spec from the C02 grammar (variables / md-variables, DenseArray, "
     "TimeDependentDenseArray, Scalar, SparseArray, Projection, ProjectionList, arithmetic nodes, function applications, "
     "time / iterate shifts) on a generated md-grid, plus a single-site mutation. (a) Two independent builds of the same "
-    "spec must have equal _key() and hash(). (a') A tree in which one SparseArray leaf is obtained as SparseArray(M^T).T (optionally after the key of SparseArray(M^T) was requested) must have the key of the tree built directly. (b) The mutated tree must have a different key. Mutations: one scalar value (by 1, by a relative 1e-4 / 1e-7 / 1e-12, or by one unit in the last place), "
+    "spec must have equal _key() and hash(). (a') A tree in which one SparseArray leaf is obtained as SparseArray(M^T).T (optionally after the key of SparseArray(M^T) was requested) must have the key of the tree built directly. (a'') Array constants with integer values handed over as int64 / int32 / float32 instead of float64 must give the same key. (b) The mutated tree must have a different key. Mutations: one scalar value (by 1, by a relative 1e-4 / 1e-7 / 1e-12, or by one unit in the last place), "
     "one array entry, one matrix entry / format / shape, variable identity (name, domain, sub-variable order), "
     "operation kind, operand order of a non-commutative node (both op-op and the forward / reflected pair `a o c` vs `c o a` with a Python literal c), one projection range index, one domain index, range "
     "size, DOMAIN SIZE, and projections with > 1000 indices that differ only in the middle of the index array. "
@@ -35,7 +35,7 @@ DESIGN_REF = "DESIGN.md section 4, C45"
 ASSUMPTIONS = ["AbstractFunction keys 'will be covered later' (code comment): function identity is not required to show in keys",
                "time/iterate-shifted copies share the key of the original by design"]
 REQUIRED = {"mut-dense": 0.01, "mut-const": 0.02, "mut-mat": 0.05, "mut-leaf": 0.03, "mut-op": 0.03, "mut-swap": 0.004,
-            "mut-proj": 0.05, "bigproj": 0.015, "mut-side": 0.01, "mut-fine": 0.01, "via-transpose": 0.1, "via-transpose-hash-first": 0.04}
+            "mut-proj": 0.05, "bigproj": 0.015, "mut-side": 0.01, "mut-fine": 0.01, "array-dtype": 0.03, "via-transpose": 0.1, "via-transpose-hash-first": 0.04}
 
 MUT_PROJ = ["ran", "dom", "rsize", "dsize"]
 
@@ -55,6 +55,35 @@ def strategy(tier):
 
 
 # ------------------------------------------------------------------ operator construction (no evaluation)
+_ARRAY_DTYPE = [float]  # dtype in which array constants are handed to the library (set by check() for one build)
+
+
+def _arr(c):
+    return np.array(c, dtype=_ARRAY_DTYPE[0])
+
+
+def _round_arrays(nd):
+    """The same tree with every array constant rounded to integers (so that it can be passed in an integer dtype)."""
+    if isinstance(nd, dict):
+        out = {k: _round_arrays(v) for k, v in nd.items()}
+        if out.get("k") in ("dense", "binc", "rbin") and isinstance(out.get("c"), list):
+            out["c"] = [float(round(x)) if round(x) != 0 or out.get("k") == "dense" else 1.0 for x in out["c"]]
+        return out
+    if isinstance(nd, list):
+        return [_round_arrays(v) for v in nd]
+    return nd
+
+
+def _has_arrays(nd):
+    if isinstance(nd, dict):
+        if nd.get("k") in ("dense", "binc", "rbin") and isinstance(nd.get("c"), list):
+            return True
+        return any(_has_arrays(v) for v in nd.values())
+    if isinstance(nd, list):
+        return any(_has_arrays(v) for v in nd)
+    return False
+
+
 def build_ops(nd, S, via_t=None):
     """via_t = (site, hash_first): the site-th SparseArray leaf (in visiting order) is obtained as the transpose of the
     SparseArray that wraps the transposed matrix - the same leaf by another route - optionally after the key of that
@@ -74,7 +103,7 @@ def _build(nd, S, via_t, counter):
     if k == "leaf":
         return S.leaves[nd["i"] % len(S.leaves)]
     if k == "dense":
-        return pp.ad.DenseArray(np.array(nd["c"], dtype=float))
+        return pp.ad.DenseArray(_arr(nd["c"]))
     if k == "tda":
         return pp.ad.TimeDependentDenseArray(f"tda{nd['size']}", [S.sds[0]])
     if k == "proj":
@@ -110,7 +139,7 @@ def _build(nd, S, via_t, counter):
     if k in ("binc", "rbin"):
         c = nd["c"]
         isarr = isinstance(c, list)
-        cv = np.array(c, dtype=float) if isarr else c
+        cv = _arr(c) if isarr else c
         if nd["wrap"] == "ad":
             cop = pp.ad.DenseArray(cv) if isarr else pp.ad.Scalar(c)
         else:
@@ -327,6 +356,19 @@ def check(spec):
     require(k1 == k2, "equal-keys", f"two builds of the same tree have different keys:\n {k1}\n {k2}")
     require(hash(op1) == hash(op2), "equal-hash", "two builds of the same tree have different hashes")
     labels = [f"depth{min(tree_depth(tree), 6)}"]
+    # array constants with integer values, handed over once as float64 and once in another dtype: the same leaf data
+    if _has_arrays(tree) and spec["variant"] % 3 == 0:
+        rt = _round_arrays(tree)
+        kf = build_ops(copy.deepcopy(rt), S)._key()
+        dt = [np.int64, np.int32, np.float32][(spec["variant"] // 3) % 3]
+        _ARRAY_DTYPE[0] = dt
+        try:
+            other = build_ops(copy.deepcopy(rt), S)
+        finally:
+            _ARRAY_DTYPE[0] = float
+        require(other._key() == kf, "equal-keys-array-dtype",
+                f"array constants with the same (integer) values given as float64 and as {np.dtype(dt).name} give different keys")
+        labels += ["array-dtype", "array-dtype-" + np.dtype(dt).name]
     # the same leaf reached by another route: SparseArray(M^T).T is SparseArray(M) (after M^T^T, which may change
     # the storage format, e.g. nothing for coo, csr <-> csc <-> csr)
     nsp = _count_sparse(tree)
